@@ -1547,6 +1547,51 @@ def rule_paramlist_syntax(chk, prog, tier):
     r.exhaustive = False
 
 
+def rule_undefined_label(chk, prog, tier):
+    r = chk.rule('C10.w', 'every function definition is checked for `goto` to a label that is never defined (6.8.6.1p1): the function that raises "label ... used but not defined" does so on every path through it, and in decl() every path '
+                 'from parsing a function body to the return runs it - also for definitions that are parsed but not emitted (inline definitions)', floor=2, oracle='C11 6.8.6.1p1')
+    import cfg
+    from facts import walk as _walk
+    nr, graphs = cfg.cfgs(prog)
+    checkers = {}
+    for fn in prog.all_funcs():
+        for c in _walk(fn):
+            if c.get('kind') == 'CallExpr' and cfg.callee_name(c) == 'error' and any(x.get('kind') == 'StringLiteral' and 'used but not defined' in x.get('value', '') for x in _walk(c)):
+                checkers[fn['name']] = (fn, c)
+    if not checkers:
+        raise AnalysisBroken('the diagnostic "label ... used but not defined" was not found')
+    sound = set()
+    for name, (fn, call) in checkers.items():
+        g = graphs[fn['id']]
+        dom = g.dominators()
+        node = next((n for n in g.nodes if n.ast is not None and any(x is call for x in _walk(n.ast))), None)
+        if node is None or node.id not in dom:
+            raise AnalysisBroken('%s: diagnostic call not in the flow graph' % name)
+        guards = [i for i in dom[node.id] if g.nodes[i].kind == 'cond']
+        # the loop over the labels (a condition that dominates the diagnostic) is met on every path to the function's end
+        ok = g.exit.id in dom and any(i in dom[g.exit.id] for i in guards)
+        r.instance(ok, 'label-check:%s runs its check on every path' % name, '%s:%s' % (fn['_file'], call.get('line') or fn.get('line')),
+                   '%s() can return without reaching the loop that reports undefined labels' % name)
+        if ok: sound.add(name)
+    dfn = prog.require_func('decl', 'decl.c')
+    g = graphs[dfn['id']]
+    starts = [n for n in g.nodes if n.ast is not None and any(c.get('kind') == 'CallExpr' and cfg.callee_name(c) == 'funcbody' for c in _walk(n.ast))]
+    if not starts:
+        raise AnalysisBroken('decl(): call of funcbody not found')
+    for st in starts:
+        seen = set(); work = [m for m, _ in st.succ]; escape = None
+        while work:
+            n = work.pop()
+            if n.id in seen: continue
+            seen.add(n.id)
+            if n.ast is not None and any(c.get('kind') == 'CallExpr' and cfg.callee_name(c) in sound for c in _walk(n.ast)): continue
+            if n.kind in ('exit', 'ret'): escape = n; break
+            work.extend(m for m, _ in n.succ)
+        r.instance(escape is None, 'label-check:decl() after funcbody', 'decl.c:%s' % st.line,
+                   'a path from the parsed function body to the return at line %s runs none of %s: a goto to an undefined label in such a definition is accepted silently' % (escape.line if escape is not None else '?', sorted(checkers)))
+    r.exhaustive = True
+
+
 def run(chk, tier):
     from props import c01f
     prog = facts.programs()['cproc-qbe']
@@ -1575,6 +1620,7 @@ def run(chk, tier):
     chk.guard('C10.t', lambda: rule_bitfield_designators(chk, prog, tier))
     chk.guard('C10.u', lambda: rule_tagspec_syntax(chk, prog, tier))
     chk.guard('C10.v', lambda: rule_addressof(chk, prog, tier))
+    chk.guard('C10.w', lambda: rule_undefined_label(chk, prog, tier))
     from props import c08
     chk.guard('C08.e', lambda: c08.rule_valist(chk, prog, tier))        # va_arg of a structure or union (unsupported) is diagnosed
     from props import c05
